@@ -274,7 +274,11 @@ CARVE_OUTS = {
 
 
 def excluded(spec):
+    import os
+    skip = (os.environ.get('VERIF_NO_CARVE') or '').split(',')   # triage only; never set by registered commands
     for name, pred in CARVE_OUTS.items():
+        if name in skip or 'all' in skip:
+            continue
         if pred(spec):
             return name
     return None
